@@ -659,7 +659,7 @@ func TestVerifC13Differential(t *testing.T) {
 	run := vk.Start(t, "C13", "differential")
 	defer run.Finish()
 	run.Rule("seeded histories of 30-80 operations in the repositories' operation/value subset (scalar string keys: Set/Get/Delete/Exists/SetNX/CAS/SetExpiration/GetExpiration; list keys; hash keys; counter keys; ttl in {0, short, 1 h}; 7 of 8 histories: short = 40 ms for Set/SetNX only and sleep 60 ms; 1 of 8: short = 1 s for every ttl-carrying operation incl. SetList/CAS/SetExpiration and sleep 1.2 s) executed step by step on memory storage and on Redis storage over miniredis (each sleep mirrored by FastForward); answers and an immediate read-back compared after normalisation; finally +48 h on miniredis: ttl-0 keys must survive; distinct = (previous op > op, ttl-argument class, key class)")
-	nh := run.Pick(200, 6000)
+	nh := run.Pick(200, 4000)
 	st := &c13dStats{distinct: map[string]struct{}{}, counts: map[string]int64{}}
 	master := run.Rand("diff")
 	type job struct {
